@@ -247,13 +247,23 @@ class SeededTreecorr:
         self._treecorr = treecorr
         self._seed = seed
         self.calls = 0
+        self.degenerate = False  # k-means returned a non-finite centre (a cluster without points)
 
     def Catalog(self, *args, **kwargs):  # noqa: N802
         self.calls += 1
         kwargs = dict(kwargs)
         kwargs["rng"] = np.random.default_rng(self._seed)
         kwargs["config"] = dict(num_threads=1)
-        return self._treecorr.Catalog(*args, **kwargs)
+        cat = self._treecorr.Catalog(*args, **kwargs)
+        try:
+            if kwargs.get("npatch"):
+                pc = np.asarray(cat.patch_centers, dtype="f8")
+                # a cluster without points comes back as NaN or as the zero vector
+                if not np.all(np.isfinite(pc)) or np.any(np.sqrt((pc**2).sum(axis=-1)) < 1e-6):
+                    self.degenerate = True
+        except Exception:  # noqa: BLE001
+            self.degenerate = True
+        return cat
 
     def __getattr__(self, name):
         return getattr(self._treecorr, name)
